@@ -10,7 +10,6 @@ package c09
 import (
 	"encoding/json"
 	"fmt"
-	"math"
 	"os"
 	"sort"
 	"sync"
@@ -378,16 +377,19 @@ func TestC09(t *testing.T) {
 	rep.Coverage["part_a"] = map[string]any{"evaluations": aEvals.Load(), "base_cases": aBase.Load(), "mid_run_cancellations": aMid.Load(), "file_limit_cases": fEvals, "longest_run_in_stream_calls": maxCalls}
 	rep.Coverage["part_b"] = map[string]any{"evaluations": bEvals.Load(), "context_done_at_call_runs": bPre.Load(), "mid_run_cancellations": bMid.Load(),
 		"entry_points_from_reflection": methods, "entry_points_with_generic_arguments": generic, "scenarios": len(scs), "per_entry_point": perEntry, "k_stride": strides}
-	smallMax := 10
+	big := "511,512,513,32767,32768,32769,2^20"
 	if thorough {
-		smallMax = 40
+		big += ",2^20-1,2^20+1"
 	}
 	rep.Coverage["bound"] = map[string]any{
-		"a_source_lengths":  fmt.Sprintf("0..%d (scripts of <= 4 chunks from {0,1,2,rest}; <= 2 chunks where max/n is not within 1 of the length) and 511,512,513,32767,32768,32769,2^20-1,2^20,2^20+1 (7 scripts)", smallMax),
-		"a_max_or_n":        "-1, 0, 1, L-1, L, L+1, 2L, 2^31, MaxInt64; bufferCapacity -1 (default), 0, 16 (2^31 with the default capacity: one serial case in the thorough tier)",
-		"a_reader":          "error after byte k for every k <= 8 (alone / together with data; custom error / io.ErrUnexpectedEOF), EOF together with data, zero-length reads, with/without WriterTo",
-		"a_writer":          "error at byte 0/1/3, with/without ReaderFrom",
-		"a_cancellation":    "before the call; after the j-th stream call for every j of the run; cancel and deadline flavour",
+		"a_source_lengths": fmt.Sprintf("0..%d and %s", smallMaxLen(thorough), big),
+		"a_families": "lengths 0..max: A1 every script of <= 4 chunks from {0,1,2,rest} x healthy reader (EOF alone / with the last data) x healthy writer (with/without ReaderFrom); " +
+			"A2 every reader failure (after byte k for every k <= 8; alone / with data; custom error / io.ErrUnexpectedEOF) x scripts of <= 2 chunks; " +
+			"A3 every failing writer (byte 0/1/3, with/without ReaderFrom) x scripts of <= 1 chunk x {healthy reader, reader failing at byte 2}; " +
+			"boundary lengths: 7 scripts (3 for 2^20) x 4 reader behaviours x 3 writer behaviours; every family crossed with every max/n, capacity, WriterTo present or not",
+		"a_helpers":         "ReadAtMost, ReadAll, CopyDataWithContext, CopyNWithContext, WriteString, NewContextualReader, ContextualWriter, NewContextualReaderFrom; ReadFileWithContextAndLimits / ReadFileContent with limits",
+		"a_max_or_n":        "-1, 0, 1, L-1, L, L+1, 2L, 2^31, MaxInt64; bufferCapacity -1 (default) and 16 (2^31 with the default capacity: one serial case in the thorough tier only)",
+		"a_cancellation":    "before the call; after the j-th stream call for every j of the run; cancel and deadline flavour (boundary lengths: mid-run instants in the cancel flavour)",
 		"b_trees":           "12 entries and 300 entries (+ one 100000-byte file, + the zip of the tree)",
 		"b_backends":        "in-memory (afero MemMapFs under vfsx under VFS), OS (ExtendedOsFs under vfsx under VFS, /dev/shm)",
 		"b_cancellation":    "context done at the call (cancelled / expired deadline); after backend operation k for every k (stride per tree/backend/flavour in part_b.k_stride; 1 = every k)",
@@ -405,7 +407,6 @@ func TestC09(t *testing.T) {
 		"a deadline expiring mid-run is represented by a harness context whose Err() is context.DeadlineExceeded (no wall clock)",
 		"OS backend = tmpfs of this sandbox",
 	}
-	_ = math.MaxInt64
 	rep.Finish()
 }
 
